@@ -82,7 +82,7 @@ def rand_graph(rng, rm=None, n=None, p_inv=0.25, consts=None, concepts=None, bas
     vset = set(vs)
     bases = usable_bases(rm, bases or BASES)
     bases = [b for b in bases if b != rm.concept_role and b != rm.top_role]
-    consts = [c for c in (consts or CONSTS) if c not in vset]
+    consts = [c for c in (consts or CONSTS) if c not in vset and str(c) not in vset]
     concepts = concepts or CONCEPTS
     triples = []
     canon = set()
